@@ -159,14 +159,15 @@ func init() {
 }
 
 type ctx struct {
-	f      *file
-	consts map[string]constant.Value // local constants (const decls and := of constant expressions)
-	alias  map[string]string         // local names that stand for a term over the scrutinee ("self", "trunc", …)
-	class  string                    // class of the scrutinee in this clause: int | uint | float32 | float64 | float | bool | string | big | other
+	f        *file
+	consts   map[string]constant.Value // local constants (const decls and := of constant expressions)
+	alias    map[string]string         // local names that stand for a term over the scrutinee ("self", "trunc", …)
+	retFloat bool                      // the function returns a float: integer constants it returns are floats
+	class    string                    // class of the scrutinee in this clause: int | uint | float32 | float64 | float | bool | string | big | other
 }
 
 func (c *ctx) clone() *ctx {
-	n := &ctx{f: c.f, consts: map[string]constant.Value{}, alias: map[string]string{}, class: c.class}
+	n := &ctx{f: c.f, consts: map[string]constant.Value{}, alias: map[string]string{}, class: c.class, retFloat: c.retFloat}
 	for k, v := range c.consts {
 		n.consts[k] = v
 	}
@@ -463,6 +464,9 @@ func (c *ctx) value(e ast.Expr) string {
 	if v, ok := c.constVal(e); ok {
 		if i := constant.ToInt(v); i.Kind() == constant.Int {
 			n, _ := new(big.Int).SetString(i.ExactString(), 10)
+			if c.retFloat {
+				return "(.litF " + leanInt(n) + ")"
+			}
 			return "(.lit " + leanInt(n) + ")"
 		}
 	}
@@ -672,6 +676,9 @@ func (c *ctx) clause(stmts []ast.Stmt, after string) (guards []string, res strin
 					if strings.HasPrefix(a, "(.lit ") && strings.HasPrefix(b, "(.lit ") {
 						return guards, "(.ifTrue " + a[6:len(a)-1] + " " + b[6:len(b)-1] + ")", ""
 					}
+					if strings.HasPrefix(a, "(.litF ") && strings.HasPrefix(b, "(.litF ") {
+						return guards, "(.ifTrueF " + a[7:len(a)-1] + " " + b[7:len(b)-1] + ")", ""
+					}
 				}
 				return raw()
 			}
@@ -796,7 +803,7 @@ func typeSwitchTable(f *file, name, after string) (table, error) {
 	t := table{name: name}
 	var frame []string
 	found := false
-	base := &ctx{f: f, consts: map[string]constant.Value{}, alias: map[string]string{}}
+	base := &ctx{f: f, consts: map[string]constant.Value{}, alias: map[string]string{}, retFloat: returnsFloat(f, fd)}
 	for _, d := range fd.Body.List { // function-level constants
 		if ds, ok := d.(*ast.DeclStmt); ok {
 			collectConsts(base, ds)
@@ -851,6 +858,14 @@ func typeSwitchTable(f *file, name, after string) (table, error) {
 	return t, nil
 }
 
+func returnsFloat(f *file, fd *ast.FuncDecl) bool {
+	if fd.Type.Results == nil || len(fd.Type.Results.List) == 0 {
+		return false
+	}
+	t := f.text(fd.Type.Results.List[0].Type)
+	return t == "float64" || t == "float32"
+}
+
 func collectConsts(c *ctx, ds *ast.DeclStmt) {
 	gd, ok := ds.Decl.(*ast.GenDecl)
 	if !ok || gd.Tok != token.CONST {
@@ -874,7 +889,7 @@ func guardFn(f *file, name, class string, trimmed bool, params map[string]int64)
 	if err != nil {
 		return table{}, err
 	}
-	c := &ctx{f: f, consts: map[string]constant.Value{}, alias: map[string]string{}, class: class}
+	c := &ctx{f: f, consts: map[string]constant.Value{}, alias: map[string]string{}, class: class, retFloat: returnsFloat(f, fd)}
 	for k, v := range params { // instantiate an integer parameter (stringToFloat's bitSize)
 		c.consts[k] = constant.MakeInt64(v)
 	}
@@ -999,7 +1014,7 @@ func GenCoerce(repo string) (string, error) {
 		if tail == nil {
 			return "", fmt.Errorf("toFloat32: tail `fval, err := ToFloat64(d); if err != nil …` not found")
 		}
-		c := &ctx{f: f, consts: map[string]constant.Value{}, alias: map[string]string{"fval": "self"}, class: "float64"}
+		c := &ctx{f: f, consts: map[string]constant.Value{}, alias: map[string]string{"fval": "self"}, class: "float64", retFloat: true}
 		g, r, _ := c.clause(tail, "")
 		fmt.Fprintf(&b, "/-- `toFloat32` after `fval, err := ToFloat64(d)` succeeded: guards over `fval`, then the narrowing. -/\ndef toFloat32_tail : Branch :=\n  %s\n\n", branch{guards: g, res: r}.lean())
 	}
